@@ -825,7 +825,7 @@ class OpenAPI(Specification):
                     method.name,
                     method.method,
                     ref_template=f'#/components/schemas/{component_name_prefix}{{model}}',
-                    exclude=[method.context] if method.context else [],
+                    exclude=list(method.injected_params),
                 ):
                     request_schema, components = result
                     if components:
